@@ -190,7 +190,7 @@ func (c01) Eval(c *Chooser, env *Env) *Outcome {
 		return c01InitConfig(c, env)
 	}
 	o := &Outcome{}
-	opts := GenOpts{Ties: true, Clone: true, Corpus: true, Projects: true, Defective: true, Loose: true, SelfArg: true, PathConfigs: true, MaxRepos: 2, MaxFiles: 3}
+	opts := GenOpts{Ties: true, Clone: true, Anomalies: true, Symlinks: true, Corpus: true, Projects: true, Defective: true, Loose: true, SelfArg: true, PathConfigs: true, MaxRepos: 2, MaxFiles: 3}
 	mw := GenMulti(c, opts)
 	w := mw.World
 	w.API = APIMain
